@@ -147,6 +147,9 @@ def main(argv):
                 os.remove(os.path.join(EVID, "replay", f))
 
     # ---- 1. proofs ----
+    if cfg.get("scan"):
+        import scan_sites
+        scan_sites.main()          # regenerates coq/gen/Sites.v and Shared.v from /repo's current headers
     bad = pipeline.hygiene_gate()
     ok, thms, assumptions, plog = pipeline.prove(pid)
     obligations = len(thms) + 1        # + the correspondence relation
@@ -154,7 +157,7 @@ def main(argv):
     nonclosed = {k: v for k, v in assumptions.items() if not v.startswith("Closed under the global context")}
     allowed_axioms = cfg.get("allowed_axioms", [])
     for k, v in list(nonclosed.items()):
-        names = re.findall(r"^(\S+)\s*:", v, flags=re.M)
+        names = [ln.split()[0] for ln in v.splitlines() if ln and not ln[0].isspace() and not ln.startswith("Axioms:")]
         if names and all(any(n.endswith(ax) for ax in allowed_axioms) for n in names):
             del nonclosed[k]
     if ok and not bad and not nonclosed:
